@@ -15,6 +15,7 @@ from harness.vlib import coq_str
 from harness.props import c13_fam as F
 from harness.props import c13_codec as CD
 from harness.props import c13_doc as DOC
+from harness.props import c13_layer as LAYER
 
 PROPS = [
     ("props/C13_isolation.vo", ["C13_isolation", "C13_default_unaltered", "C13_shared_cache_refuted"], []),
@@ -33,6 +34,10 @@ PROPS = [
                              "C13_same_decode_plan_partial", "C13_same_decode_plan_full_refuted", "C13_format_no_copy_table",
                              "C13_no_copy_user_wins", "C13_no_copy_format_default"], ["K2", "K13", "K13C"]),
     ("props/C13_union.vo", ["C13_union4_partial", "C13_union4_total", "C13_union4_refuted"], []),
+    ("props/C13_layer.vo", ["C13_layered_twin_partial", "C13_layered_twin_full_refuted", "C13_layered_strategy_partial",
+                            "C13_layered_strategy_full_refuted", "C13_layered_call_dialect_wins", "C13_layered_sources_are_code",
+                            "C13_merged_sources_are_code", "C13_first_hit_is_code", "C13_layered_code_end_to_end",
+                            "C13_merge_strategies_is_code", "C13_layered_code_end_to_end_K"], ["K2", "K3", "K5", "K13", "K113a"]),
 ]
 
 BOOL_OPTS = ("omit_none", "omit_default", "serialize_by_alias", "namedtuple_as_dict")
@@ -186,6 +191,18 @@ def strategy_corr(ctx: vlib.Ctx):
         ctx.correspondence("merge_strategies-model-vs-Dialect.merge", len(cases), len(bad), str([descr[i] for i in bad[:3]]))
         if bad:
             ctx.not_shown("correspondence merge_strategies", f"{len(bad)} maps differ, e.g. {descr[bad[0]]}")
+    # (T) the strategy loops of Dialect.merge as translated on this run (kernel K113a), on the same maps
+    bad, log = vlib.coq_bad_idx("c13_k113a", "DialectMerge DialectLayer DialectLayerK5 DialectMergeK", "From VerifGen Require Import K113a.",
+                                "Open Scope nat_scope.\n", cases, "k113a_case_ok", "smap * smap * smap", shard=500,
+                                needs=["theories/DialectMergeK.vo"])
+    name = "K113a-translated-merge-loops-vs-Dialect.merge"
+    if bad is None:
+        ctx.correspondence(name, len(cases), -1, log)
+        ctx.not_shown("correspondence " + name, log)
+    else:
+        ctx.correspondence(name, len(cases), len(bad), str([descr[i] for i in bad[:3]]))
+        if bad:
+            ctx.not_shown("correspondence " + name, f"{len(bad)} maps differ, e.g. {descr[bad[0]]}")
 
 
 # ---------------------------------------------------------------------------
@@ -304,6 +321,24 @@ def covers(spec: dict, di) -> bool:
             if dv is None or (o == "str" and not dv):
                 return False
     return True
+
+
+def layer_ok_spec(spec: dict, di) -> bool:
+    """DialectLayer.layer_ok in both directions: Dialect.merge replaces a strategy OBJECT of the classes' own default
+    dialect whole when D brings a dict for the same type, whereas the layered lookup still reaches that object for the
+    direction D's dict lacks (C13_layered_strategy_full_refuted)."""
+    bs, ds = spec["dialects"][str(spec["base_dialect"])], spec["dialects"][str(di)]
+    return not (bs.get("int") == "strat" and ds.get("int") in ("ser", "de"))
+
+
+def twin_key(spec: dict, di):
+    """Which twin family `dialect=D<di>` is compared with: the family whose default dialect is D; where the classes have
+    a default dialect B of their own that D does not cover, the family whose default dialect is the REAL B.merge(D)
+    (C13_layered_twin_partial / C13_layered_strategy_partial), resp. D layered over B by hand where merge is not the
+    layering."""
+    if di is None or covers(spec, di):
+        return di
+    return ("merge", di) if layer_ok_spec(spec, di) else ("layer", di)
 
 
 def gen_vals(r, fam: F.Family, cname: str, depth: int = 0) -> dict:
@@ -520,11 +555,16 @@ def value_tree(fam: F.Family, cname: str, vals: dict):
     return (CID[cname], kids)
 
 
+release_builders = F.release_builders
+
+
 class HistoryRun:
     """Runs one history on a fresh family; collects oracle verdicts and the model case."""
 
-    def __init__(self, spec, ops, r=None):
+    def __init__(self, spec, ops, r=None, also_layer=False, keep_trace=False):
         self.spec, self.ops, self.r = spec, ops, r
+        # also_layer: a call compared with the REAL-merge twin is compared with the hand-layered twin too
+        self.also_layer, self.trace = also_layer, ([] if keep_trace else None)
         self.fam = F.Family(spec, None, define_all=False)
         self.twins: dict = {}
         self.dirs = ("to", "from", "mto", "mfrom") if spec.get("mixin") else ("to", "from")
@@ -552,6 +592,7 @@ class HistoryRun:
         self.fam.close()
         for t in self.twins.values():
             t.close()
+        release_builders()
 
     def run(self):
         fam = self.fam
@@ -572,7 +613,7 @@ class HistoryRun:
             if vals is None:
                 vals = gen_vals(self.r, fam, c)
                 op[4] = vals
-            tw = self.twin(di)
+            tw = self.twin(twin_key(self.spec, di))
             mops, mouts = self.model[direction]
             if is_deferred(fam, c) and has_kind(fam, c, "plain"):
                 # lazy_compilation / postponed: the first call in this (format, direction) compiles the class, and with it
@@ -587,6 +628,12 @@ class HistoryRun:
                 mouts.append([decode_to(raw)] + [tag for _n, tag in nested_to_guided(fam, c, raw)])
                 ok = (got == exp and gid == eid)
                 observed, expected = [got, gid], [exp, eid]
+                if ok and self.also_layer and isinstance(twin_key(self.spec, di), tuple) and twin_key(self.spec, di)[0] == "merge":
+                    exp, eid, _ = F.call_to_dict(self.twin(("layer", di)), c, vals, None, mp)
+                    ok = (got == exp and gid == eid)
+                    expected = [exp, eid]
+                if self.trace is not None:
+                    self.trace.append((c, direction, di, vals, raw))
                 flags = self.spec.get("flags", ["dialect"])
                 if ok and di is None and len(flags) > 1 and self.mismatch is None and uniform_flag_options(self.spec):
                     # a keyword flag only adds a keyword: without that keyword the result is the one of the same
@@ -598,39 +645,22 @@ class HistoryRun:
                                          "expected": [exp2, eid2], "kind": "keyword-flag-changes-default-output"}
                         break
             else:
-                if covers(self.spec, di):
-                    _, _, doc = F.call_to_dict(tw, c, vals, None, mp)      # a document of dialect di
-                else:
-                    # the call dialect is layered over the classes' own default dialect: the matching document is
-                    # the one the family itself writes (one more to_dict call in the history)
-                    dgot, dgid, doc = F.call_to_dict(fam, c, vals, di, mp)
-                    if doc is None:          # the family cannot even write its own document: that call is the failure
-                        self.stats.append((c, "mto" if mp else "to", di))
-                        self.mismatch = {"index": idx, "op": [c, "mto" if mp else "to", di, vals], "observed": [dgot, dgid],
-                                         "expected": "a document, not an exception"}
-                        break
-                    tops, touts = self.model["mto" if mp else "to"]
-                    if is_deferred(fam, c) and has_kind(fam, c, "plain"):
-                        tops.append(["define", CID["Plain"]])
-                        touts.append([])
-                    tops.append(["call", value_tree(fam, c, vals), di])
-                    touts.append([decode_to(doc)] + [tag for _n, tag in nested_to_guided(fam, c, doc)])
+                _, _, doc = F.call_to_dict(tw, c, vals, None, mp)      # a document of dialect di (layered over the classes' own)
                 got, res = F.call_from_dict(fam, c, doc, di, mp)
                 exp, _ = F.call_from_dict(tw, c, doc, None, mp)
                 mops.append(["call", value_tree(fam, c, vals), di])
                 mouts.append([decode_from(res)] + [tag for _n, tag in nested_from(res)])
                 ok = got == exp
                 observed, expected = got, exp
+                if ok and self.also_layer and isinstance(twin_key(self.spec, di), tuple) and twin_key(self.spec, di)[0] == "merge":
+                    exp, _ = F.call_from_dict(self.twin(("layer", di)), c, doc, None, mp)
+                    ok = got == exp
+                    expected = exp
+                if self.trace is not None:
+                    self.trace.append((c, direction, di, doc, res))
             self.stats.append((c, direction, di))
             if not covers(self.spec, di):
-                self.uncovered += 1
-                g0 = observed[0] if direction in ("to", "mto") else observed
-                if isinstance(g0, tuple) and len(g0) == 2 and g0[0] == "exc" and self.mismatch is None:
-                    # no twin to compare with (layered dialects), but a call on a document of its own dialect never raises
-                    self.mismatch = {"index": idx, "op": [c, direction, di, vals], "observed": observed,
-                                     "expected": "a result (the family's own document / instance), not an exception"}
-                    break
-                continue
+                self.uncovered += 1          # compared with the merged / layered twin
             if not ok and self.mismatch is None:
                 self.mismatch = {"index": idx, "op": [c, direction, di, vals], "observed": observed, "expected": expected}
                 break
@@ -670,7 +700,7 @@ def classify_history_failure(hr: HistoryRun, mm: dict) -> dict:
             drop = [(o, bspec.get(o)) for o in drop]
             # the difference must be confined to those projections: the real result equals the twin
             # whose default dialect is D without the options steered by keyword flags
-            tw2 = hr.twin(("mod", di, tuple(drop)))
+            tw2 = hr.twin(("mod" if covers(hr.spec, di) else "modlayer", di, tuple(drop)))
             exp2, eid2, _ = F.call_to_dict(tw2, c, vals, None, direction == "mto")
             if [exp2, eid2] == [mm["observed"][0], mm["observed"][1]]:
                 sig = {"kind": "call-dialect-vs-flag-defaults", "direction": direction}
@@ -697,12 +727,14 @@ def history_part(ctx: vlib.Ctx, n_hist=None, tag=""):
             ctx.hist("family_compilation", "lazy" if spec.get("lazy") else "eager")
             ctx.hist("family_default_dialect", "own Config.dialect" if spec.get("base_dialect") else "none")
             if hr.uncovered:
-                ctx.hist("history_calls", "skipped:call-dialect-does-not-cover-Config.dialect", hr.uncovered)
+                ctx.hist("history_calls", "layered:call-dialect-does-not-cover-Config.dialect (twin = Config.dialect.merge(D))", hr.uncovered)
             if mm is not None:
                 sig = classify_history_failure(hr, mm)
                 upto = [list(o) for o in ops[:mm["index"] + 1]]
                 what_twin = ("the same family without keyword-flag options" if sig["kind"] == "keyword-flag-changes-default-output"
-                             else f"the twin family whose default dialect is D{mm['op'][2]}")
+                             else f"the twin family whose default dialect is D{mm['op'][2]}"
+                             + ("" if not isinstance(twin_key(spec, mm['op'][2]), tuple) else
+                                f" layered over the classes' own D{spec['base_dialect']} (Config.dialect.merge(D))"))
                 ctx.fail(f"{mm['op'][0]}.{ {'to': 'to_dict', 'from': 'from_dict', 'mto': 'to_<format>', 'mfrom': 'from_<format>'}[mm['op'][1]] }(dialect=D{mm['op'][2]}) after "
                          f"{mm['index']} earlier operations differs from {what_twin}",
                          {"entry": "history", "spec": spec, "source": F.family_source(spec), "ops": upto,
@@ -806,6 +838,63 @@ def first_call_probes(ctx: vlib.Ctx):
         ctx.correspondence(name, len(cases), len(bad), "; ".join(cases[i][:300] for i in bad[:2]))
         if bad:
             ctx.not_shown("correspondence " + name, f"{len(bad)} probes: {cases[bad[0]][:1200]} || {json.dumps(descr[bad[0]], default=str)[:1500]}")
+
+
+def layered_probes(ctx: vlib.Ctx):
+    """Systematic: classes that have a default dialect of their own (Config.dialect = B) are called with dialects that set
+    every option B sets, to other values: the call dialect must win over B exactly as the twin's default dialect does
+    (option order call dialect > Config.dialect > Config > default_dialect, strategy sources likewise)."""
+    cases, descr = [], []
+    full = {"omit_none": False, "omit_default": False, "serialize_by_alias": True, "namedtuple_as_dict": True,
+            "no_copy_collections": "list", "int": "dict", "bytes": None, "str": True}
+    other = {"omit_none": True, "omit_default": True, "serialize_by_alias": False, "namedtuple_as_dict": False,
+             "no_copy_collections": "empty", "int": "strat", "bytes": None, "str": False}
+    base = {"omit_none": True, "omit_default": True, "serialize_by_alias": False, "namedtuple_as_dict": False,
+            "no_copy_collections": None, "int": "dict", "bytes": None, "str": False}
+    for mixin in (None, "DataClassMessagePackMixin"):
+        for lazy in (False, True):
+            cfg = {"flags": ["dialect"]}
+            spec = {"dialects": {"1": dict(full), "2": dict(other), "3": dict(base)}, "base_dialect": 3,
+                    "classes": {"Inner": {"base": None, "mixin": mixin, "fields": [["n", "opt"], ["w", "int"]], "config": dict(cfg)},
+                                "P": {"base": None, "mixin": mixin, "config": dict(cfg),
+                                      "fields": [["o", "opt"], ["i", "int"], ["a", "alias"], ["t", "nt"], ["l", "list"], ["s", "str"]]},
+                                "C": {"base": "P", "fields": [["c", "optstr"], ["cin", "inner"]], "config": None}},
+                    "order": ["Inner", "P", "C"], "flags": ["dialect"], "mixin": mixin, "lazy": lazy, "cfg_int": True}
+            pv = {"o": None, "i": 5, "a": 8, "t": [3, 4], "l": [1, 2], "s": "abc"}
+            cv = dict(pv, c=None, cin={"n": None, "w": 9})
+            dirs = ("to", "from") if mixin is None else ("to", "from", "mto", "mfrom")
+            ops = [["define", "Inner"], ["define", "P"], ["define", "C"]]
+            for d in (1, 2, None, 1):
+                for direction in dirs:
+                    ops.append(["call", "P", direction, d, dict(pv)])
+                    ops.append(["call", "C", direction, d, dict(cv)])
+            hr = HistoryRun(spec, ops)
+            try:
+                mm = hr.run()
+                ctx.count(("layered", mixin, lazy))
+                ctx.hist("layered_probes", f"{mixin or 'DataClassDictMixin'}:{'lazy' if lazy else 'eager'}")
+                if mm is not None:
+                    sig = classify_history_failure(hr, mm)
+                    ctx.fail(f"{mm['op'][0]}.{mm['op'][1]}(dialect=D{mm['op'][2]}) on classes whose own Config.dialect sets the same options "
+                             f"to other values: result differs from the twin class whose default dialect is D{mm['op'][2]}",
+                             {"entry": "history", "spec": spec, "source": F.family_source(spec), "ops": ops[:mm["index"] + 1],
+                              "observed": mm["observed"], "expected": mm["expected"]}, sig)
+                else:
+                    for d in hr.dirs:
+                        cases.append(hr.cache_case(d))
+                        descr.append({"direction": d, "spec": spec, "ops": ops})
+            finally:
+                hr.close()
+    bad, log = vlib.coq_bad_idx("c13_layered", "DialectCache DialectDeep", "", "Open Scope nat_scope.\n", cases,
+                                "deep_case_ok", "deep_case", shard=250, needs=["theories/DialectDeep.vo"])
+    name = "cache-state-machine-vs-layered-dialect-probes"
+    if bad is None:
+        ctx.correspondence(name, len(cases), -1, log)
+        ctx.not_shown("correspondence " + name, log)
+    else:
+        ctx.correspondence(name, len(cases), len(bad), "; ".join(cases[i][:300] for i in bad[:2]))
+        if bad:
+            ctx.not_shown("correspondence " + name, f"{len(bad)} probes: {cases[bad[0]][:1200]}")
 
 
 UNION_SRC = r'''
@@ -1063,16 +1152,28 @@ def run(ctx: vlib.Ctx):
         "shapes x values; distinct = (format, option vector, shape, value). merge: random option namespaces / strategy maps. "
         "decode side: deserializer choice on random (format, user map, type); named-tuple mode and no_copy_collections exhaustively "
         "over format x user dialect x Config.dialect x Config, resolution and end-to-end behaviour of the real Encoder and Decoder. "
-        "unions: 2-3 members with random keyword-flag sets (omit_none, by_alias, dialect, context).")
+        "unions: 2-3 members with random keyword-flag sets (omit_none, by_alias, dialect, context). layered dialects: families "
+        "whose classes have a Config.dialect B of their own x call dialects that do not cover B (5 strategy shapes of B x 5 of D x "
+        "Config-level strategy or none x random options), compared with the twins whose default dialect is the real B.merge(D) "
+        "and D layered over B by hand; distinct = (family, class, direction, dialect).")
+    # the whole cone once, with a generous limit: on a loaded machine / in a fresh copy the first target would otherwise
+    # have to build every dependency within the per-target limit (a timeout there is a false alarm, not a broken proof)
+    vlib.coq_make([t for t, _n, _k in PROPS] + ["theories/DialectLayer.vo", "theories/DialectDeep.vo"], timeout=2700)
     for target, names, kernels in PROPS:      # one file per theorem family: a broken proof marks only its own family
         ctx.theorems(target, names, kernels=kernels)
     ctx.trusted += [
         "DialectCache.step / DialectDeep.call_tree: model of the generated prologue/dispatch of add_(un)pack_method (attribute lookup "
         "through the MRO, own-namespace creation, dict item assignment, nested calls in field order, forwarding of the dialect keyword); "
         "compared with real class families on every run",
-        "DialectMerge.merge_strategies: hand model of the two strategy loops of Dialect.merge; compared with Dialect.merge on every run",
+        "DialectMerge.merge_strategies: model of the two strategy loops of Dialect.merge, proved equal to the loops as translated on "
+        "this run (kernel K113a, C13_merge_strategies_is_code) on the embedding DialectLayerK5.emb_map; model and translated kernel "
+        "are both compared with Dialect.merge on every run",
         "DialectDoc: document model = OptProj.to_dict_model (C08) + codec_strategies/choice (hand model of the first-hit strategy lookup "
         "at the default-dialect level); compared with the mapping every real Encoder hands to its format library on every run",
+        "DialectLayer.first_hit: proved equal to the translated consumer loops of get_overridden_(de)serialization_method (K5) on the "
+        "embedding DialectLayerK5.emb of strategy values (object = namespace with serialize/deserialize and __use_annotations__ = False, "
+        "dict = mapping from direction to callable, absent = None); the embedding and the hand model merge_strategies are compared "
+        "with the callable real classes apply on every run",
         "DialectTwin.call_effective / union_forward, DialectUnion.union_forward4: hand models of keyword-default forwarding and of the "
         "union branch order (try members in order, a branch fails only on an unknown keyword); compared with real unions on every run",
         "DialectDecode: decode plan = key read (alias or name), deserializer in force (first-hit lookup over codec_strategies), "
@@ -1085,8 +1186,10 @@ def run(ctx: vlib.Ctx):
     ]
     ctx.assumptions += [
         "twin class = same source with Config.dialect = D on every class that enables ADD_DIALECT_SUPPORT; where the classes have a "
-        "Config.dialect of their own the twin is compared only if D says something wherever that one does (a call dialect is layered "
-        "over Config.dialect, not substituted: DialectTwin.layered_witness)",
+        "Config.dialect B of their own that D does not cover, the twin's default dialect is B.merge(D) (a call dialect is layered "
+        "over Config.dialect, not substituted: DialectTwin.layered_witness; Dialect.merge is that layering: C13_layered_twin_partial, "
+        "C13_layered_strategy_partial) -- except where D holds a one-directional dict over a strategy OBJECT of B "
+        "(C13_layered_strategy_full_refuted), there the twin's default dialect is D layered over B by hand",
         "TOML: a dialect that sets omit_none=False together with a None field value is outside the domain (TOML has no null; "
         "the encoder raises TypeError loudly)",
         "C13_same_document_partial: documents are equal as Python mappings when no field is left to a format-native entry "
@@ -1100,18 +1203,23 @@ def run(ctx: vlib.Ctx):
     history_part(ctx)
     d14_probe(ctx)
     first_call_probes(ctx)
+    layered_probes(ctx)
+    LAYER.layer_part(ctx, sys.modules[__name__])
     union_part(ctx)
     union4_part(ctx)
+    release_builders()
     DOC.run_all(ctx)
+    release_builders()
     CD.codec_part(ctx)
+    release_builders()
     if ctx.tier == "thorough":
         coqchk(ctx)
     if ctx.unshown and not any(vlib.match_known(ctx.pid, f, vlib.load_known_findings()) is None for f in ctx.failures):
         # a proof obligation or a correspondence broke and the normal budget found no unlisted failing input:
         # search harder before reporting no-failing-input-found
         ctx.notes.append("extended search after a broken obligation/correspondence")
-        history_part(ctx, n_hist=ctx.budget(250, 600), tag="_ext")
-        CD.codec_part(ctx, extra=ctx.budget(120, 300))
+        history_part(ctx, n_hist=ctx.budget(90, 400), tag="_ext")
+        CD.codec_part(ctx, extra=ctx.budget(40, 200))
 
 
 def coqchk(ctx: vlib.Ctx):
@@ -1138,7 +1246,7 @@ def replay(rep: dict) -> int:
     if entry == "history":
         spec, ops = rep["spec"], rep["ops"]
         ops = [list(o) for o in ops]
-        hr = HistoryRun(spec, ops)
+        hr = HistoryRun(spec, ops, also_layer=bool(rep.get("also_layer")))
         try:
             mm = hr.run()
         finally:
